@@ -157,6 +157,17 @@ template<typename Ad, typename Tr> static void run_case(int dist, size_t logStar
 					}
 				}
 				if (r) { ++refused; if (res == "I") ++fb; }
+				if (r && kind == 'i' && before.head != nullptr && !present)
+				{	// the property itself: a refused growth must fall back to the existing table ...
+					if (res != "I" && res != "U")
+						oracle.push_back("growth refused at " + op + ": insertion did not fall back to the existing table (result " + res + ")");
+					if (res == "U")
+					{	// ... and may report "full" only if no bucket of that table has a free slot
+						auto* bk = hs.mBuckets; bool allFull = true;
+						for (size_t i = 0; i < bk->GetCount(); ++i) if (!(*bk)[i].IsFull()) allFull = false;
+						if (!allFull) oracle.push_back("growth refused at " + op + ": \"Hash table is full\" although a bucket of the newest table has a free slot");
+					}
+				}
 				if (af) ++afails;
 				if (res == "U") ++fullc;
 				if (res != "I" && res != "V" && res != "A")
